@@ -305,6 +305,72 @@ func c15LargeGarbage(r *rng, tier string, res *Result) {
 	}
 }
 
+// c02LargeIndex: a clean restart of a database large enough for the metadata to be large too: 350,000
+// keys (index level 9, a free list of about 2000 overflow buckets in index.pmt), Close, Open, Close,
+// Open; Count and a sample of the keys after every Open.
+func c02LargeIndex(r *rng, tier string, res *Result) {
+	dir := fmt.Sprintf("c02big-%d-%d", res.Seed, r.next()%1000000)
+	const n = 350000
+	key := func(i int) []byte { return []byte(fmt.Sprintf("large-%07d", i)) }
+	fail := func(when, what string) {
+		res.Findings = append(res.Findings, &Finding{Kind: "spec", Case: "C02/large-index", Cmd: when, Impl: []string{what},
+			Expected: []string{"the closed contents, opened without recovery"},
+			Program:  []string{"open (fs.Mem, default options)", fmt.Sprintf("%d x put large-NNNNNNN", n), "delete every 1000th key", "close", "open", "close", "open"}})
+	}
+	db, err := pogreb.Open(dir, &pogreb.Options{FileSystem: fs.Mem})
+	if err != nil {
+		return
+	}
+	for i := 0; i < n; i++ {
+		if err := db.Put(key(i), []byte{byte(i), byte(i >> 8)}); err != nil {
+			fail("put", err.Error())
+			return
+		}
+	}
+	want := n
+	for i := 0; i < n; i += 1000 {
+		_ = db.Delete(key(i))
+		want--
+	}
+	if idx, err := pogreb.VerifIndexDump(db); err == nil {
+		res.Tags["large_index_free_list_entries"] = len(idx.Free)
+	}
+	for session := 1; session <= 2; session++ {
+		if err := db.Close(); err != nil {
+			fail(fmt.Sprintf("close %d", session), err.Error())
+			return
+		}
+		db, err = pogreb.Open(dir, &pogreb.Options{FileSystem: fs.Mem})
+		if err != nil {
+			fail(fmt.Sprintf("open after clean close %d", session), err.Error())
+			return
+		}
+		if c := int(db.Count()); c != want {
+			fail(fmt.Sprintf("count after clean restart %d", session), fmt.Sprintf("%d, closed with %d", c, want))
+			break
+		}
+		for j := 0; j < 3000; j++ {
+			i := r.intn(n)
+			v, err := db.Get(key(i))
+			if i%1000 == 0 {
+				if err != nil || v != nil {
+					fail("get of a deleted key after a clean restart", fmt.Sprintf("%v %v", v, err))
+					session = 9
+					break
+				}
+				continue
+			}
+			if err != nil || len(v) != 2 || v[0] != byte(i) || v[1] != byte(i>>8) {
+				fail(fmt.Sprintf("get %s after clean restart %d", key(i), session), fmt.Sprintf("%v %v", v, err))
+				session = 9
+				break
+			}
+		}
+	}
+	_ = db.Close()
+	res.Tags["large_index_restarts"]++
+}
+
 // cBackgroundDuringRecovery: a database opened with background compaction (and sync) enabled, after
 // an unclean shutdown, on a slow device: whatever the background worker does, the recovering Open
 // must return the acknowledged contents, and again after further writes and a second crash.
